@@ -76,11 +76,8 @@ func (h *NFSProcedureHandler) HandleCall(call *RPCCall, body io.Reader, authCtx 
 	// Acquire policy read lock. TryRLock fails if a policy update (Lock)
 	// is in progress, causing us to return JUKEBOX so clients retry.
 	if !handler.policyRWMu.TryRLock() {
-		// Policy drain in progress -- return NFSERR_JUKEBOX
-		var buf bytes.Buffer
-		xdrEncodeUint32(&buf, NFSERR_JUKEBOX)
-		reply.Data = buf.Bytes()
-		return reply, nil
+		// Policy drain in progress -- tell the client to retry later
+		return drainReply(call, reply), nil
 	}
 	// DO NOT defer RUnlock here -- the goroutine owns the lock so that
 	// drain-and-swap blocks until the goroutine's filesystem work finishes,
@@ -172,6 +169,57 @@ func (h *NFSProcedureHandler) HandleCall(call *RPCCall, body io.Reader, authCtx 
 		return nil, fmt.Errorf("operation timed out")
 	case result := <-replyChan:
 		return result, nil
+	}
+}
+
+// drainReply builds the retry-later reply sent while a policy update drains
+// in-flight requests. The reply uses the failure shape of the procedure's RFC 1813
+// result type so that clients can decode it; MOUNT has no retry-later status, so
+// MNT answers MNT3ERR_SERVERFAULT and the argument-less procedures are served.
+func drainReply(call *RPCCall, reply *RPCReply) *RPCReply {
+	switch call.Header.Program {
+	case NFS_PROGRAM:
+		if call.Header.Version != NFS_V3 {
+			reply.AcceptStatus = PROG_MISMATCH
+			return reply
+		}
+		switch call.Header.Procedure {
+		case NFSPROC3_NULL:
+			return reply
+		case NFSPROC3_GETATTR:
+			return nfsErrorReply(reply, NFSERR_JUKEBOX)
+		case NFSPROC3_LOOKUP, NFSPROC3_ACCESS, NFSPROC3_READLINK, NFSPROC3_READ,
+			NFSPROC3_READDIR, NFSPROC3_READDIRPLUS, NFSPROC3_FSSTAT, NFSPROC3_FSINFO, NFSPROC3_PATHCONF:
+			return nfsErrorWithPostOp(reply, NFSERR_JUKEBOX)
+		case NFSPROC3_SETATTR, NFSPROC3_WRITE, NFSPROC3_CREATE, NFSPROC3_MKDIR, NFSPROC3_SYMLINK,
+			NFSPROC3_MKNOD, NFSPROC3_REMOVE, NFSPROC3_RMDIR, NFSPROC3_COMMIT:
+			return nfsErrorWithWcc(reply, NFSERR_JUKEBOX)
+		case NFSPROC3_RENAME:
+			return nfsErrorWithDoubleWcc(reply, NFSERR_JUKEBOX)
+		case NFSPROC3_LINK:
+			return nfsErrorWithPostOpAndWcc(reply, NFSERR_JUKEBOX)
+		default:
+			reply.AcceptStatus = PROC_UNAVAIL
+			return reply
+		}
+	case MOUNT_PROGRAM:
+		if call.Header.Version != 1 && call.Header.Version != MOUNT_V3 {
+			reply.AcceptStatus = PROG_MISMATCH
+			return reply
+		}
+		switch call.Header.Procedure {
+		case 1: // MNT
+			return nfsErrorReply(reply, 10006) // MNT3ERR_SERVERFAULT
+		case 0, 3, 4: // NULL, UMNT, UMNTALL: no result
+			return reply
+		default:
+			// DUMP and EXPORT have list results; SYSTEM_ERR carries no body
+			reply.AcceptStatus = SYSTEM_ERR
+			return reply
+		}
+	default:
+		reply.AcceptStatus = PROG_UNAVAIL
+		return reply
 	}
 }
 
